@@ -331,6 +331,79 @@ class StructFamily(Family):
         return {'sl': sl, 'buf0': buf0, 'l0': l0, 'p0': p0, 'Hb': Hb, 'Db': Db, 'base': base, 'c': c, 'oa': oa, 'pbuf': pbuf, 'plen': plen, 'q0': q0, 'Hp': Hp, 'Dp': Dp, 'r': r, 'cp': c2}, k, K
 
 
+def struct_persistence(F):
+    """what a named member stored stays: in the result container through the later parse steps, in the build scope through the later
+    build steps.  Hypotheses: member names are pairwise distinct and none is '_index'; interface frame of a sub-construct call (the
+    context changes at most at '_index', other containers are untouched)."""
+    from .unions import _names_distinct
+
+    def name(v, i):
+        return t.app('sc_name', t.VAL, F.member(v, i))
+
+    def named(v, i):
+        return t.app('truthy', t.BOOL, name(v, i))
+
+    def key(v, i):
+        return t.app('sval', t.STR, name(v, i))
+
+    def sel(H, a, k, sort, inner):
+        return t.T(sort, 'select', (t.T(inner, 'select', (H, a)), k))
+
+    def distinct(v, K):
+        return _names_distinct(v['sl'], K)
+
+    # ---- parse side
+    PVARS = [('sl', t.INT), ('base', t.INT)] + F.PV + [('j', t.INT), ('d', t.INT)]
+
+    def pstep_def(v, k):
+        prev = F.PF(v, t.sub(k, t.ONE))
+        step = t.app('pstep', 'PS', F.member(v, t.sub(k, t.ONE)), prev, v['pbuf'], v['plen'], v['base'], v['cp'], v['r'])
+        return t.implies(t.ge(k, t.ONE), t.eq(F.PF(v, k), step))
+
+    def pframe(v, i):
+        a = F.pargs(v, i)
+        s = F.PF(v, i)
+        return t.implies(t.ne(v['r'], v['cp']), t.and_(t.eq(t.T('Fields', 'select', (t.app('P_H', HEAP, *a), v['r'])), t.T('Fields', 'select', (ps('ps_H', s), v['r']))),
+                                                       t.eq(t.T('Keys', 'select', (t.app('P_D', DOM, *a), v['r'])), t.T('Keys', 'select', (ps('ps_D', s), v['r'])))))
+
+    def presult(v):
+        j, d = v['j'], v['d']
+        K = t.add(t.add(j, t.ONE), d)
+        S_ = F.PF(v, K)
+        return t.implies(t.and_(t.ge(j, t.ZERO), t.ge(d, t.ZERO), F.good(S_), named(v, j), t.ne(v['r'], v['cp']), distinct(v, K)),
+                         t.and_(sel(ps('ps_D', S_), v['r'], key(v, j), t.BOOL, 'Keys'), t.eq(sel(ps('ps_H', S_), v['r'], key(v, j), t.VAL, 'Fields'), F.P('P_val', t.VAL, v, j))))
+    Lemma('struct_result_holds', PVARS, presult, induct=('d', 0), tags=T, ih_instances=lambda v: [{n: v[n] for n, _ in PVARS if n != 'd'}],
+          traits=lambda v: [pframe(v, t.add(v['j'], v['d']))], defs=lambda v: [pstep_def(v, t.add(t.add(v['j'], t.ONE), v['d']))],
+          doc='the result container holds, under the name of member j, the value member j parsed - whatever was parsed after it')
+
+    # ---- build side
+    BVARS = F.BV + [('j', t.INT), ('d', t.INT)]
+
+    def bstep_def(v, k):
+        prev = F.BF(v, t.sub(k, t.ONE))
+        step = t.app('bstep', 'BS', F.member(v, t.sub(k, t.ONE)), prev, v['base'], v['c'], v['oa'])
+        return t.implies(t.ge(k, t.ONE), t.eq(F.BF(v, k), step))
+
+    def bframe(v, i):
+        a = F.bargs(v, i)
+        H1, D1, c = a[3], a[4], v['c']
+        H2, D2 = t.app('B_H', HEAP, *a), t.app('B_D', DOM, *a)
+        f1, f2 = t.T('Fields', 'select', (H1, c)), t.T('Fields', 'select', (H2, c))
+        d1, d2 = t.T('Keys', 'select', (D1, c)), t.T('Keys', 'select', (D2, c))
+        return t.and_(t.eq(f2, t.T('Fields', 'store', (f1, S('_index'), t.T(t.VAL, 'select', (f2, S('_index')))))),
+                      t.eq(d2, t.T('Keys', 'store', (d1, S('_index'), t.T(t.BOOL, 'select', (d2, S('_index')))))))
+
+    def bscope(v):
+        j, d = v['j'], v['d']
+        K = t.add(t.add(j, t.ONE), d)
+        S_ = F.BF(v, K)
+        return t.implies(t.and_(t.ge(j, t.ZERO), t.ge(d, t.ZERO), bs('bs_ok', S_), named(v, j), t.ne(key(v, j), S('_index')), distinct(v, K)),
+                         t.and_(sel(bs('bs_D', S_), v['c'], key(v, j), t.BOOL, 'Keys'), t.eq(sel(bs('bs_H', S_), v['c'], key(v, j), t.VAL, 'Fields'), F.B('B_ret', t.VAL, v, j))))
+    Lemma('struct_scope_holds', BVARS, bscope, induct=('d', 0), tags=T, ih_instances=lambda v: [{n: v[n] for n, _ in BVARS if n != 'd'}],
+          traits=lambda v: [bframe(v, t.add(v['j'], v['d']))], defs=lambda v: [bstep_def(v, t.add(t.add(v['j'], t.ONE), v['d']))],
+          doc='the build scope holds, under the name of member j, what the build of member j returned - whatever was built after it')
+
+
 def no_stop_on_build(src):
     """domain restriction of the member-list round trip (listed in the evidence): no member refuses to build with StopFieldError
     (a StopIf inside the list ends the build early; what was written then parses back only if the same condition holds when
@@ -345,7 +418,43 @@ def no_stop_on_build(src):
 
 ARRAY = ArrayFamily('array', 'm', 'abfold', 'afold', 'aval', 'abret').make()
 SEQUENCE = SequenceFamily('sequence', 'sl', 'qbfold', 'qfold', 'qval', 'qbret').make()
+STRUCT = StructFamily().make()
+struct_persistence(STRUCT)
 ghost.POST_HINTS['Array'] = ARRAY.post_hints
+def struct_post_hints(ob):
+    """instances of the proved Struct lemmas on the fold applications of a ghost obligation; member indexes are taken from the
+    member-list accesses (sl_at) that occur ground in it"""
+    F = STRUCT
+    terms = list(ob.hyps) + [ob.goal]
+    apps = ghost.find_apps(terms, ('bfold', 'pfold', 'sl_at'))
+    out, seen = [], set()
+
+    def add(x):
+        if x.smt() not in seen:
+            seen.add(x.smt())
+            out.append(x)
+    idx = {a.args[1].smt(): a.args[1] for a in apps['sl_at'].values() if not ghost.has_bound_var(a)}
+    for bf in apps['bfold'].values():
+        if ghost.has_bound_var(bf):
+            continue
+        for pf in apps['pfold'].values():
+            if ghost.has_bound_var(pf):
+                continue
+            mt = F.match(bf, pf)
+            if mt is None:
+                continue
+            v, k, K = mt
+            add(F.inst('pos_len', v, k=K))
+            add(F.inst('roundtrip_positions', v, k=k, K=K))
+            for j in idx.values():
+                add(F.inst('roundtrip_values', v, j=j, K=K))
+                d = t.sub(t.sub(K, j), t.ONE)
+                add(LEMMAS['struct_result_holds'].stmt(dict(v, j=j, d=d)))
+                add(LEMMAS['struct_scope_holds'].stmt(dict(v, j=j, d=d)))
+    return out
+
+
 def install(src):
     nostop = no_stop_on_build(src)
     ghost.POST_HINTS['Sequence'] = lambda ob: SEQUENCE.post_hints(ob) + nostop(ob)
+    ghost.POST_HINTS['Struct'] = lambda ob: struct_post_hints(ob) + nostop(ob)
